@@ -48,6 +48,15 @@ class Check(PropertyCheck):
                   "`code_layout_is_rfc_layout`. Tie: real DNSLayer driven through harness/common/world.py in both "
                   "directions over UDP and TCP (incl. > 16 KiB messages whose names first appear beyond offset 16383); "
                   "Lean DnsRef against its Python twin on every input and output.")
+    level_note = ("trusted: Lean kernel; hand-written models tied differentially (forwarded bytes; DnsRef rendering vs its "
+                  "Python twin). The idna codec is a parameter of the model, instantiated per case from the real codec. "
+                  "Hooks are answered without modification by the world; the harness drives one segment per direction "
+                  "(for server->client cases the world first lets the client ask the query each server message answers, so "
+                  "that the reply is solicited). `history_preserves` is a theorem about the C27 layer model (tied to the "
+                  "code by the C27 check) with acts = []: runs in which addons modify flows are outside C26's statement. "
+                  "The oracle additionally demands that a message made of plain host-name labels is actually delivered; "
+                  "that liveness part is checked on the code, not proved. No theorem covers a compressing *encoder* "
+                  "(DNSMessage.packed does not compress); `compressed_name_read` states what any such encoder may rely on.")
     technique = "Lean 4 proof (parse agreement between the cache-based decoder and the specification decoder) + differential correspondence through the real DNSLayer"
     rule = ("server-style messages from an independent compressing encoder: compressed names inside CNAME/NS/PTR/MX/SOA/SRV/"
             "NAPTR/RP/... data, ACE/IDN labels, TXT/unknown/A/AAAA/OPT records with pointer-like bytes, SOA serials and MX "
